@@ -193,7 +193,7 @@ def check_boundary_tests(model, rep, R='C08.boundary-tests'):
                    f'this test compares {sorted(k)} while the other duty-cycle tests of the laws compare {sorted(ref)}: equal over the '
                    f'reals, different floating-point expressions - at the float next to the dead-zone boundary the tests disagree',
                    loc=f'{m.module}:{node.lineno}')
-    rep.require(R, 4, 'two duty-cycle tests in each law')
+    rep.require(R, 6, 'two duty-cycle tests in each law, one truth-arithmetic instance per law')
 
 
 def _vanishes_on(ctx, den, d) -> bool:
@@ -233,6 +233,25 @@ def check(model, rep):
                    f'the law is not a pure function of the motor state: it {bad[0][1] if bad else ""} - a value remembered from another '
                    f'evaluation (or another motor) can be returned', loc=f'{mm.module}:{bad[0][0] if bad else mm.node.lineno}')
         impure = impure or bool(bad)
+    # branch selection by ARITHMETIC on truth values (`(D >= -t) + (D > t)`): right for Python numbers, wrong for numpy scalars, whose
+    # comparisons give numpy.bool_ and numpy.bool_ + numpy.bool_ is a logical or (True + True is True, not 2).  The library hands the
+    # motor such duty cycles itself (StartLimitCurrent computes its proposal with numpy.sqrt), so "for any duty cycle" includes them
+    import ast as _ast
+    for meth in ('compute_torque', 'compute_electric_current'):
+        mm = model.member('DCMotor', meth)
+        hit = None
+        for x in _ast.walk(mm.node):
+            if isinstance(x, _ast.BinOp) and isinstance(x.op, (_ast.Add, _ast.Sub, _ast.Mult)):
+                for side in (x.left, x.right):
+                    if isinstance(side, (_ast.Compare, _ast.BoolOp)) or (isinstance(side, _ast.UnaryOp) and isinstance(side.op, _ast.Not)):
+                        hit = x
+            if isinstance(x, _ast.Call) and isinstance(x.func, _ast.Name) and x.func.id == 'sum' and x.args and any(
+                    isinstance(y, _ast.Compare) for y in _ast.walk(x.args[0])):
+                hit = x
+        rep.decide(hit is None, 'C08.boundary-tests', f'DCMotor.{meth}:truth-arithmetic',
+                   f'`{_ast.unparse(hit)[:70] if hit is not None else ""}` selects the branch by arithmetic on comparison results: with a numpy scalar duty '
+                   f'cycle (what StartLimitCurrent proposes) True + True is True, so a forward duty cycle is taken for a dead-zone one',
+                   loc=f'{mm.module}:{hit.lineno if hit is not None else mm.node.lineno}')
     sx = SX(model)
     pos = positive_atoms(sx, 'DCMotor')
     sxm.POSITIVE_ATOMS.clear()
